@@ -348,6 +348,77 @@ func c08R5(c *Ctx, r *Report) {
 	if found == 0 {
 		r.Fail("C08-R5", "fn=SimpleMultiChangesFeed store=ChangeEntry.Seq.LowSeq", c.Pos(top.Pos()), "emitted entries are no longer stamped with the low sequence")
 	}
+	// the request's own low sequence: every store to options.Since.LowSeq writes 0 or the value the request arrived with
+	sinceF := c.Field("db.ChangesOptions", "Since")
+	nreq := 0
+	for _, fn := range append([]*ssa.Function{top}, top.AnonFuncs...) {
+		EachInstr(fn, false, func(in ssa.Instruction) {
+			st, ok := in.(*ssa.Store)
+			if !ok {
+				return
+			}
+			fa, ok := st.Addr.(*ssa.FieldAddr)
+			if !ok || structField(fa.X.Type(), fa.Field) != lowF {
+				return
+			}
+			inner, ok := fa.X.(*ssa.FieldAddr)
+			if !ok || structField(inner.X.Type(), inner.Field) != sinceF {
+				return
+			}
+			// only the feed's own options (the parameter cell), not per-channel copies
+			root := rootAddr(inner.X)
+			al, isAlloc := root.(*ssa.Alloc)
+			if !isAlloc || al.Comment != "options" {
+				return
+			}
+			nreq++
+			if k, isK := constInt(st.Val); isK && k == 0 {
+				// clearing is allowed only where the request's low sequence equals the current low sequence (nothing new can be missed)
+				eq := EdgesWhere(fn, func(cond ssa.Value) (bool, bool) {
+					b, ok := cond.(*ssa.BinOp)
+					if !ok || (b.Op != token.EQL && b.Op != token.NEQ) {
+						return false, false
+					}
+					isReq := func(v ssa.Value) bool {
+						f, base := fieldRead(v)
+						if f != lowF {
+							return false
+						}
+						in2, ok := base.(*ssa.FieldAddr)
+						return ok && structField(in2.X.Type(), in2.Field) == sinceF && rootAddr(in2.X) == root
+					}
+					if (isReq(b.X) && !isNilOrZero(b.Y)) || (isReq(b.Y) && !isNilOrZero(b.X)) {
+						return true, b.Op == token.EQL
+					}
+					return false, false
+				})
+				okz := len(eq) > 0 && DominatedBy(fn, st, NewAvoid().AddEdge(eq...))
+				r.Check("C08-R5", fmt.Sprintf("fn=%s store=options.Since.LowSeq #%d", c.FuncName(fn), nreq), c.Pos(st.Pos()), okz,
+					"cleared only when equal to the current low sequence", "the request's low sequence is cleared unconditionally: a waiting (longpoll) request would resume past a still-missing sequence")
+				return
+			}
+			ok2 := valueOnlyFrom(st.Val, func(v ssa.Value) (bool, bool) {
+				if _, ok := constInt(v); ok {
+					return true, false
+				}
+				if f, base := fieldRead(v); f == lowF {
+					if in2, ok := base.(*ssa.FieldAddr); ok && structField(in2.X.Type(), in2.Field) == sinceF && rootAddr(in2.X) == root {
+						return true, true
+					}
+					return true, false
+				}
+				if _, isPhi := v.(*ssa.Phi); isPhi {
+					return false, false
+				}
+				if u, ok := v.(*ssa.UnOp); ok && u.Op == token.MUL {
+					return false, false
+				}
+				return true, false
+			})
+			r.Check("C08-R5", fmt.Sprintf("fn=%s store=options.Since.LowSeq #%d", c.FuncName(fn), nreq), c.Pos(st.Pos()), ok2,
+				"value ∈ {0, the low sequence the request arrived with}", "the request's low sequence is overwritten with a value that is neither 0 nor the low sequence it arrived with: a waiting (longpoll) request would resume past a still-missing sequence")
+		})
+	}
 	// SafeSequence used by channel cache reads
 	for _, name := range []string{"(*db.singleChannelCacheImpl).GetChanges", "(*db.singleChannelCacheImpl).GetCachedChanges"} {
 		fn := c.Func(name)
@@ -424,4 +495,12 @@ func checkInitHandsOverLock(c *Ctx, r *Report, rule string, la *lockAnalysis) {
 	}
 	r.Check(rule, "fn=(*db.changeCache).Init success-returns hold lock=changeCache.lock (hand-off to Start)", c.Pos(fn.Pos()), ok && n > 0,
 		fmt.Sprintf("%d success return(s), lock held at each", n), "Init can return successfully without holding the cache lock: feed callbacks could run before Start sets the initial sequence")
+}
+
+func isNilOrZero(v ssa.Value) bool {
+	if isNilConst(v) {
+		return true
+	}
+	k, ok := constInt(v)
+	return ok && k == 0
 }
